@@ -120,7 +120,7 @@ Proof. vm_compute. split; reflexivity. Qed.
    the metadata flute's receiver computes from the parsed document is what the sender was given.
    Not covered: late packets WITHOUT EXT_FTI before the instance (cached and replayed LIFO: delivered in the example
    C02Session.cached_packets_before_fdt_computed, not proved in general), a close-object flag before the instance
-   (C02_session_close_flag_before_fdt_refuted), several objects, multi-packet FDT instances. *)
+   (harmless since D44 was repaired: block D44 at the end of this file), several objects, multi-packet FDT instances. *)
 From FluteV Require Import Model.Xml Model.FdtInst Model.FdtRecv Spec.C10Spec Proofs.FdtProofs
   Proofs.C02Session Proofs.C01Session.
 
@@ -833,3 +833,260 @@ Example C16_session_cached_example_by_theorem : forall j closable fti,
   session_meta_delivered exs_cfg false exs_now exs_m ex_content exs_rcfg r cx.
 Proof. exact exs_cached_late_by_theorem. Qed.
 (* ===== end block: C02Cache ===== *)
+
+(* ===== block: D44 ===== *)
+(* ---------------- late join: a close-object flag BEFORE the FDT instance is harmless (defect D44, repaired) ----------------
+   A packet carrying the close-object flag interrupts a Receiving object only once the object has a writer, i.e. once an
+   FDT instance has been attached (Model/ObjRecv.v, push_to_block).  The session late-join theorems above therefore hold
+   without the premise "no close-object flag before the FDT packet": what the late joiner catches before the instance need
+   only carry EXT_FTI = (oti, L) and no EXT_CENC - e.g. the tail of a LAST transfer, whose final packet has the flag
+   (C02_session_close_flag_before_fdt_now_delivered, Properties/C02.v: formerly nothing was delivered).  The old theorems
+   are kept above; close_flag_ok_after is unfolded in C02_close_flag_after_statement. *)
+Theorem C16_session_late_join_general_nocode_any_flag_before_fdt :
+  forall rep raptor_src cfg complete now m content E rcfg nowr id sct,
+  sender_ok cfg now m content -> doc_fits cfg complete now m -> receiver_ok E rcfg nowr sct cfg now m content ->
+  forall (window : nat) (closable debug fti : bool) (pre : list apkt), (1 <= window)%nat ->
+  Forall (fun p => a_toi p = m_toi m) pre ->
+  Forall (fun p => genuine_pkt (obj_roti cfg m) content p = true) pre ->
+  Forall (fun p => a_oti p = Some (obj_roti cfg m, lenN_ content) /\ a_cenc p = None) pre ->
+  let '(_, r, cx) := recv_run E fdt_oracle rcfg recv0
+                       (map (fun p => RvPush p nowr)
+                            (pre ++ sess_fdt_pkt cfg complete now m id sct
+                                    :: obj_wire rep raptor_src cfg m window closable debug content fti)) ctx0 in
+  session_meta_delivered cfg complete now m content rcfg r cx.
+Proof. exact session_late_join_general_any_flag_before_fdt. Qed.
+Print Assumptions C16_session_late_join_general_nocode_any_flag_before_fdt.
+
+(* the receiver joins at ANY packet offset j of a transfer with in-band FTI - a carousel transfer or the LAST one
+   (closable1 = true: the close-object flag on its last packet) -, then the FDT packet, then one whole further transfer *)
+Theorem C16_session_late_join_nocode_any_flag_before_fdt :
+  forall rep raptor_src cfg complete now m content E rcfg nowr id sct,
+  sender_ok cfg now m content -> doc_fits cfg complete now m -> receiver_ok E rcfg nowr sct cfg now m content ->
+  forall (window1 : nat) (closable1 debug1 : bool) (j window : nat) (closable debug fti : bool),
+  (1 <= window1)%nat -> (1 <= window)%nat ->
+  let '(_, r, cx) := recv_run E fdt_oracle rcfg recv0
+                       (map (fun p => RvPush p nowr)
+                            (skipn j (obj_wire rep raptor_src cfg m window1 closable1 debug1 content true)
+                             ++ sess_fdt_pkt cfg complete now m id sct
+                                :: obj_wire rep raptor_src cfg m window closable debug content fti)) ctx0 in
+  session_meta_delivered cfg complete now m content rcfg r cx.
+Proof. exact session_late_join_any_flag_before_fdt. Qed.
+Print Assumptions C16_session_late_join_nocode_any_flag_before_fdt.
+
+Theorem C16_session_late_join_general_rs_any_flag_before_fdt :
+  forall rep raptor_src cfg complete now m content E rcfg nowr id sct,
+  sender_ok_rs cfg now m content -> doc_fits cfg complete now m -> rep_len_ok rep ->
+  receiver_ok_rs rep E rcfg nowr sct cfg now m content ->
+  forall (window : nat) (closable debug fti : bool) (pre : list apkt), (1 <= window)%nat ->
+  Forall (fun p => a_toi p = m_toi m) pre ->
+  Forall (fun p => rs_genuine_pkt (obj_roti_rs cfg m) content (obj_rep_rs rep cfg m content) p = true) pre ->
+  Forall (fun p => a_oti p = Some (obj_roti_rs cfg m, lenN_ content) /\ a_cenc p = None) pre ->
+  let '(_, r, cx) := recv_run E fdt_oracle rcfg recv0
+                       (map (fun p => RvPush p nowr)
+                            (pre ++ sess_fdt_pkt cfg complete now m id sct
+                                    :: obj_wire_rs rep raptor_src cfg m window closable debug content fti)) ctx0 in
+  session_meta_delivered_rs cfg complete now m content rcfg r cx.
+Proof. exact rs_session_late_join_general_any_flag_before_fdt. Qed.
+Print Assumptions C16_session_late_join_general_rs_any_flag_before_fdt.
+
+Theorem C16_session_late_join_rs_any_flag_before_fdt :
+  forall rep raptor_src cfg complete now m content E rcfg nowr id sct,
+  sender_ok_rs cfg now m content -> doc_fits cfg complete now m -> rep_len_ok rep ->
+  receiver_ok_rs rep E rcfg nowr sct cfg now m content ->
+  forall (window1 : nat) (closable1 debug1 : bool) (j window : nat) (closable debug fti : bool),
+  (1 <= window1)%nat -> (1 <= window)%nat ->
+  let '(_, r, cx) := recv_run E fdt_oracle rcfg recv0
+                       (map (fun p => RvPush p nowr)
+                            (skipn j (obj_wire_rs rep raptor_src cfg m window1 closable1 debug1 content true)
+                             ++ sess_fdt_pkt cfg complete now m id sct
+                                :: obj_wire_rs rep raptor_src cfg m window closable debug content fti)) ctx0 in
+  session_meta_delivered_rs cfg complete now m content rcfg r cx.
+Proof. exact rs_session_late_join_any_flag_before_fdt. Qed.
+Print Assumptions C16_session_late_join_rs_any_flag_before_fdt.
+
+(* non-vacuity (the session of C16_session_example, real XML bytes through the oracle): the receiver joins at ANY offset of
+   the LAST transfer (0,0) (1,0) (0,1) - in-band FTI, the flag on its last packet, received BEFORE the FDT packet -, then
+   the FDT packet and a whole further transfer; and the whole flagged transfer followed by the FDT packet alone: TOI 7 in
+   rv_completed, the log is the delivery - by computation and by the theorem *)
+Example C16_session_flag_before_fdt_example :
+  map a_close_obj (exs_wire true) = [false; false; true]
+  /\ forallb (fun j => match exs_run (skipn j (map (add_fti ex_oti 5) (exs_wire true)) ++ exs_pf :: exs_wire false) with
+                       | (_, [], [7], [], l) => list_eqb (fun a b => match a, b with
+                                                                    | EvWrite _ x _, EvWrite _ y _ => eqb_bytes x y
+                                                                    | EvBuilder _ _, EvBuilder _ _ | EvOpen _ _, EvOpen _ _
+                                                                    | EvComplete _, EvComplete _ => true
+                                                                    | _, _ => false end) l exs_log
+                       | _ => false end) [0; 1; 2; 3; 4]%nat = true
+  /\ exs_run (map (add_fti ex_oti 5) (exs_wire true) ++ [exs_pf]) = ([POk; POk; POk; POk], [], [7], [], exs_log).
+Proof. exact exs_late_flag_before_fdt_computed. Qed.
+
+Example C16_session_flag_before_fdt_by_theorem : forall j closable1 closable fti,
+  let '(_, r, cx) := recv_run exs_env fdt_oracle exs_rcfg recv0
+                       (map (fun p => RvPush p exs_nowr)
+                            (skipn j (obj_wire no_rep no_rsrc exs_cfg exs_m 2 closable1 true ex_content true)
+                             ++ sess_fdt_pkt exs_cfg false exs_now exs_m 1 exs_sct
+                                :: obj_wire no_rep no_rsrc exs_cfg exs_m 2 closable true ex_content fti)) ctx0 in
+  session_meta_delivered exs_cfg false exs_now exs_m ex_content exs_rcfg r cx.
+Proof. exact exs_late_flag_before_fdt_by_theorem. Qed.
+
+(* RaptorQ / Raptor: the early packets need only be in-band (EXT_FTI, no EXT_CENC) *)
+Theorem C16_session_late_join_general_fq_any_flag_before_fdt :
+  forall E parse_fdt cfg oti content enc toi md5 now pf id foti d inst pre pkts,
+  let L := lenN_ content in
+  fq_scheme_ok oti L -> fq_blocks_ok oti L -> toi <> 0 ->
+  fdt_pkt_ok pf id foti d -> parse_fdt d = Some inst -> fdt_live cfg inst pf now ->
+  fdt_entry_for (fi_files inst) (fi_oti inst) toi oti L md5 ->
+  writer_accepts E toi -> writes_succeed E toi -> md5_good E content md5 ->
+  fq_oracle_sound E oti content enc toi -> fq_oracle_complete E oti content enc toi ->
+  L <= cf_max_cache cfg -> nb_blocks_of oti L <= 4097 ->
+  Forall (fun p => a_toi p = toi) (pre ++ pkts) ->
+  Forall (fun p => fq_genuine_pkt oti content enc p = true) (pre ++ pkts) ->
+  Forall (fun p => fq_sized_pkt oti p = true) (pre ++ pkts) ->
+  Forall (fun p => a_oti p = Some (oti, L) /\ a_cenc p = None) pre ->
+  fq_close_flag_ok oti L pkts ->
+  fq_recoverable oti L pkts = true ->
+  let '(_, r, c) := recv_run E parse_fdt cfg recv0 (map (fun p => RvPush p now) (pre ++ pf :: pkts)) ctx0 in
+  session_delivered cfg inst content toi r c.
+Proof. exact fq_session_late_join_general_any_flag_before_fdt. Qed.
+Print Assumptions C16_session_late_join_general_fq_any_flag_before_fdt.
+
+Theorem C16_session_late_join_fq_any_flag_before_fdt :
+  forall E parse_fdt cfg oti content enc toi md5 now pf id foti d inst cyc1 cyc2 (j : nat),
+  let L := lenN_ content in
+  fq_scheme_ok oti L -> fq_blocks_ok oti L -> toi <> 0 ->
+  fdt_pkt_ok pf id foti d -> parse_fdt d = Some inst -> fdt_live cfg inst pf now ->
+  fdt_entry_for (fi_files inst) (fi_oti inst) toi oti L md5 ->
+  writer_accepts E toi -> writes_succeed E toi -> md5_good E content md5 ->
+  fq_oracle_sound E oti content enc toi -> fq_oracle_complete E oti content enc toi ->
+  L <= cf_max_cache cfg -> nb_blocks_of oti L <= 4097 ->
+  Forall (fun p => a_toi p = toi) (cyc1 ++ cyc2) ->
+  Forall (fun p => fq_genuine_pkt oti content enc p = true) (cyc1 ++ cyc2) ->
+  Forall (fun p => fq_sized_pkt oti p = true) (cyc1 ++ cyc2) ->
+  Forall (fun p => a_oti p = Some (oti, L) /\ a_cenc p = None) cyc1 ->
+  fq_close_flag_ok oti L cyc2 ->
+  fq_recoverable oti L cyc2 = true ->
+  let '(_, r, c) := recv_run E parse_fdt cfg recv0 (map (fun p => RvPush p now) (skipn j cyc1 ++ pf :: cyc2)) ctx0 in
+  session_delivered cfg inst content toi r c.
+Proof. exact fq_session_late_join_any_flag_before_fdt. Qed.
+Print Assumptions C16_session_late_join_fq_any_flag_before_fdt.
+
+(* ---------------- the interface theorem and the "among other traffic" theorems ----------------
+   WFm' = WFm (C16_multi_wf_statement) without the flag clause for the packets of the object that arrive while no FDT
+   instance has been received (ph = false); WFm implies WFm'.  Same interface hypotheses as C16_late_join_via_interface. *)
+Theorem C16_late_join_via_interface_any_flag_before_fdt :
+  forall (E : env) (parse_fdt : list N -> option fdtinst) (cfg : rconfig) (content : list N) (toi : N) (now : Z)
+         (id : N) (inst : fdtinst) (f : fdtfile),
+  find (fun f0 => ff_toi f0 =? toi) (fi_files inst) = Some f ->
+  forall (SP : objrecv -> ObjRecv.ctx -> Prop) (LV : list (N * N) -> objrecv -> Prop) (gen : apkt -> Prop)
+         (pid : apkt -> N * N) (cov : list (N * N) -> Prop),
+  (forall o c, SP o c -> r_state o = Receiving) ->
+  (forall o c, SP o c -> r_writer o = Some (toi, 0%nat, WOpened)) ->
+  (forall o c p, SP o c -> r_nocache (fst (or_push E p o c)) = r_nocache o) ->
+  (forall o c seen p, SP o c -> LV seen o -> gen p -> (a_close_obj p = true -> cov (pid p :: seen)) ->
+     let (o2, c2) := or_push E p o c in
+     SP o2 c2 /\ LV (pid p :: seen) o2 \/ r_state o2 = Completed /\ C02Full.ShapeDone content (toi, 0%nat) toi c2) ->
+  (forall o c seen, SP o c -> LV seen o -> cov seen -> False) ->
+  (forall fid c, C02Session.Blank c ->
+     exists o0 c0, or_attach E fid (fi_files inst) (fi_oti inst) (or_new toi (cf_max_cache cfg)) c = (true, o0, c0)
+                   /\ SP o0 c0 /\ LV [] o0 /\ r_nocache o0 = ff_nocache f) ->
+  (forall o c, SP o c -> r_fdt_id o <> None) ->
+  forall (PS : objrecv -> Prop) (pktpre : apkt -> Prop),
+  (forall o, PS o -> r_state o = Receiving) ->
+  (forall p, pktpre p -> a_toi p = toi) ->
+  (forall c p, pktpre p -> exists o1, or_push E p (or_new toi (cf_max_cache cfg)) c = (o1, c) /\ PS o1 /\ LV [pid p] o1) ->
+  (forall o c seen p, PS o -> LV seen o -> pktpre p ->
+     exists o1, or_push E p o c = (o1, c) /\ PS o1 /\ LV (pid p :: seen) o1) ->
+  (forall fid o c seen, PS o -> LV seen o -> C02Session.Blank c ->
+     exists o' c', or_attach E fid (fi_files inst) (fi_oti inst) o c = (true, o', c') /\ r_nocache o' = ff_nocache f
+                   /\ (SP o' c' /\ LV seen o' \/ r_state o' = Completed /\ C02Full.ShapeDone content (toi, 0%nat) toi c')) ->
+  forall (foti : roti) (d : list N), parse_fdt d = Some inst ->
+  forall evs, WFm' cfg toi now id inst gen pid cov pktpre foti d false [] evs ->
+  let '(_, r, c) := recv_run E parse_fdt cfg recv0 (map (fun p => RvPush p now) evs) ctx0 in
+  RI r c /\ EDisj r /\ MDone cfg content toi f r c.
+Proof. exact late_multi_wf'. Qed.
+Print Assumptions C16_late_join_via_interface_any_flag_before_fdt.
+
+Theorem C16_multi_wf_statement_any_flag_before_fdt : forall cfg toi now id inst gen pid cov pktpre foti d ph seen p rest,
+  (WFm' cfg toi now id inst gen pid cov pktpre foti d ph seen [] <-> ph = true /\ cov seen)
+  /\ (WFm' cfg toi now id inst gen pid cov pktpre foti d ph seen (p :: rest) <->
+      if a_toi p =? 0 then FOk cfg now id inst foti d p /\ WFm' cfg toi now id inst gen pid cov pktpre foti d true seen rest
+      else if a_toi p =? toi
+           then (if ph then gen p /\ (a_close_obj p = true -> cov (pid p :: seen)) else pktpre p)
+                /\ WFm' cfg toi now id inst gen pid cov pktpre foti d ph (pid p :: seen) rest
+           else WFm' cfg toi now id inst gen pid cov pktpre foti d ph seen rest)
+  /\ (forall evs, WFm cfg toi now id inst gen pid cov pktpre foti d ph seen evs ->
+                  WFm' cfg toi now id inst gen pid cov pktpre foti d ph seen evs).
+Proof. exact multi_wf_statement'. Qed.
+Print Assumptions C16_multi_wf_statement_any_flag_before_fdt.
+
+(* ONE object among other traffic.  The stream is split at its FIRST FDT packet: pre ++ pf :: post, no TOI-0 packet in pre.
+   The packets of the object in pre (mine1) carry EXT_FTI = (oti, L), no EXT_CENC and ANY close-object flag; those in post
+   (mine2) are genuine in ANY form (with or without EXT_FTI: unlike C16_*_object_late_among_other_traffic, which asks
+   in-band FTI of all of them) and carry the flag only once mine1 and the packets up to it are recoverable; later FDT packets
+   are good copies; packets of other non-zero TOIs are arbitrary. *)
+Theorem C16_nocode_object_late_among_other_traffic_any_flag_before_fdt :
+  forall E parse_fdt cfg oti content toi md5 now id foti d inst pre pf post,
+  let L := lenN_ content in
+  nocode_ok oti L -> toi <> 0 -> parse_fdt d = Some inst ->
+  fdt_entry_for (fi_files inst) (fi_oti inst) toi oti L md5 ->
+  writer_accepts E toi -> writes_succeed E toi -> md5_good E content md5 ->
+  L <= cf_max_cache cfg -> nb_blocks_of oti L <= 4097 ->
+  Forall (fun p => a_toi p <> 0) pre ->
+  fdt_copy cfg inst now id foti d pf ->
+  Forall (fun p => a_toi p = 0 -> fdt_copy cfg inst now id foti d p) post ->
+  let mine1 := filter (fun p => a_toi p =? toi) pre in
+  let mine2 := filter (fun p => a_toi p =? toi) post in
+  Forall (fun p => genuine_pkt oti content p = true) (mine1 ++ mine2) ->
+  Forall (fun p => a_oti p = Some (oti, L) /\ a_cenc p = None) mine1 ->
+  close_flag_ok_after (recoverable oti L) mine1 mine2 ->
+  recoverable oti L (mine1 ++ mine2) = true ->
+  let '(_, r, c) := recv_run E parse_fdt cfg recv0 (map (fun p => RvPush p now) (pre ++ pf :: post)) ctx0 in
+  multi_delivered cfg inst content toi r c.
+Proof. exact nocode_late_among_others_delivers_any_flag_before_fdt. Qed.
+Print Assumptions C16_nocode_object_late_among_other_traffic_any_flag_before_fdt.
+
+Theorem C16_rs_object_late_among_other_traffic_any_flag_before_fdt :
+  forall E parse_fdt cfg oti content rep toi md5 now id foti d inst pre pf post,
+  let L := lenN_ content in
+  rs_scheme_ok oti L -> rs_blocks_ok oti L -> toi <> 0 -> parse_fdt d = Some inst ->
+  fdt_entry_for (fi_files inst) (fi_oti inst) toi oti L md5 ->
+  writer_accepts E toi -> writes_succeed E toi -> md5_good E content md5 ->
+  rs_oracle_mds E oti content rep toi ->
+  rs_mem_need oti L <= cf_max_cache cfg -> nb_blocks_of oti L <= 4097 ->
+  Forall (fun p => a_toi p <> 0) pre ->
+  fdt_copy cfg inst now id foti d pf ->
+  Forall (fun p => a_toi p = 0 -> fdt_copy cfg inst now id foti d p) post ->
+  let mine1 := filter (fun p => a_toi p =? toi) pre in
+  let mine2 := filter (fun p => a_toi p =? toi) post in
+  Forall (fun p => rs_genuine_pkt oti content rep p = true) (mine1 ++ mine2) ->
+  Forall (fun p => a_oti p = Some (oti, L) /\ a_cenc p = None) mine1 ->
+  close_flag_ok_after (rs_recoverable oti L) mine1 mine2 ->
+  rs_recoverable oti L (mine1 ++ mine2) = true ->
+  let '(_, r, c) := recv_run E parse_fdt cfg recv0 (map (fun p => RvPush p now) (pre ++ pf :: post)) ctx0 in
+  multi_delivered cfg inst content toi r c.
+Proof. exact rs_late_among_others_delivers_any_flag_before_fdt. Qed.
+Print Assumptions C16_rs_object_late_among_other_traffic_any_flag_before_fdt.
+
+Theorem C16_fq_object_late_among_other_traffic_any_flag_before_fdt :
+  forall E parse_fdt cfg oti content enc toi md5 now id foti d inst pre pf post,
+  let L := lenN_ content in
+  fq_scheme_ok oti L -> fq_blocks_ok oti L -> toi <> 0 -> parse_fdt d = Some inst ->
+  fdt_entry_for (fi_files inst) (fi_oti inst) toi oti L md5 ->
+  writer_accepts E toi -> writes_succeed E toi -> md5_good E content md5 ->
+  fq_oracle_sound E oti content enc toi -> fq_oracle_complete E oti content enc toi ->
+  L <= cf_max_cache cfg -> nb_blocks_of oti L <= 4097 ->
+  Forall (fun p => a_toi p <> 0) pre ->
+  fdt_copy cfg inst now id foti d pf ->
+  Forall (fun p => a_toi p = 0 -> fdt_copy cfg inst now id foti d p) post ->
+  let mine1 := filter (fun p => a_toi p =? toi) pre in
+  let mine2 := filter (fun p => a_toi p =? toi) post in
+  Forall (fun p => fq_genuine_pkt oti content enc p = true) (mine1 ++ mine2) ->
+  Forall (fun p => fq_sized_pkt oti p = true) (mine1 ++ mine2) ->
+  Forall (fun p => a_oti p = Some (oti, L) /\ a_cenc p = None) mine1 ->
+  close_flag_ok_after (fq_recoverable oti L) mine1 mine2 ->
+  fq_recoverable oti L (mine1 ++ mine2) = true ->
+  let '(_, r, c) := recv_run E parse_fdt cfg recv0 (map (fun p => RvPush p now) (pre ++ pf :: post)) ctx0 in
+  multi_delivered cfg inst content toi r c.
+Proof. exact fq_late_among_others_delivers_any_flag_before_fdt. Qed.
+Print Assumptions C16_fq_object_late_among_other_traffic_any_flag_before_fdt.
+(* ===== end block: D44 ===== *)
